@@ -25,7 +25,8 @@ from email.utils import formatdate
 from harness import fw
 from harness.fw import Err, cstr, clist, cpair, copt, cZ, cnat, cbool
 
-IMPORTS = ["Webob.Lib.PyStr", "Webob.Model.C06_ByteRange", "Webob.Model.C06_AppIterRange", "Webob.Model.C06_CondResp"]
+IMPORTS = ["Webob.Lib.PyStr", "Webob.Model.C06_ByteRange", "Webob.Model.C06_AppIterRange", "Webob.Model.C06_CondResp",
+           "Webob.Model.C06_ContentRangeText"]
 T0 = 784111777            # Sun, 06 Nov 1994 08:49:37 GMT
 
 
@@ -69,6 +70,50 @@ def impl_content_range(s, e, l):
     if c is None:
         return None
     return [c.start, c.stop, c.length, str(c)]
+
+
+def _show_cr(c):
+    return None if c is None else [c.start, c.stop, c.length, str(c)]
+
+
+def impl_cr_text(text):
+    """[groups of _rx_content_range.match, [ContentRange.parse, descriptors.parse_content_range]] on one text."""
+    from webob.byterange import ContentRange, _rx_content_range
+    from webob.descriptors import parse_content_range
+    m = _rx_content_range.match(text)
+    groups = None if m is None else list(m.groups())
+    try:
+        a = _show_cr(ContentRange.parse(text))
+    except Exception as e:  # noqa
+        a = Err(type(e).__name__)
+    try:
+        b = _show_cr(parse_content_range(text))
+    except Exception as e:  # noqa
+        b = Err(type(e).__name__)
+    return [groups, [a, b]]
+
+
+def make_sarg(arg):
+    """JSON-able argument description -> (python value for serialize_content_range, Coq literal of type sarg)."""
+    from webob.byterange import ContentRange
+    kind = arg[0]
+    if kind in ("tuple", "list"):
+        items = arg[1]
+        return (tuple(items) if kind == "tuple" else list(items)), "(ASeq %s)" % clist(c_oz(x) for x in items)
+    if kind == "cr":
+        s, e, l = arg[1]
+        return ContentRange(s, e, l), "(ACR (CR %s %s %s))" % (c_oz(s), c_oz(e), c_oz(l))
+    if kind == "str":
+        return arg[1], "(AStr %s)" % cstr(arg[1])
+    return None, "ANoneArg"
+
+
+def impl_cr_serialize(value):
+    from webob.descriptors import serialize_content_range
+    try:
+        return serialize_content_range(value)
+    except Exception as e:  # noqa
+        return Err(type(e).__name__)
 
 
 # =========================================================================== cases for the full app
@@ -1276,6 +1321,216 @@ def judge_arith(c):
     return None
 
 
+def cr_tuple_ok(s, e, l):
+    """(start, stop, length) as a 206/416 Content-Range may carry it (written from RFC 7233 §4.2, not from the code)."""
+    if s is None or e is None:
+        return s is None and e is None and (l is None or l >= 0)
+    return 0 <= s < e and (l is None or e <= l)
+
+
+def judge_cr_text(c):
+    """Does the IMPLEMENTATION break the Content-Range text contract on this text?"""
+    from webob.byterange import ContentRange
+    from webob.descriptors import parse_content_range
+    text = c["text"]
+    try:
+        got = parse_content_range(text)
+    except Exception as e:  # noqa
+        return "content-range-text:parse-raises", "parse_content_range(%r) raised %r" % (text, e)
+    if got is None:
+        return None
+    t = (got.start, got.stop, got.length)
+    if not cr_tuple_ok(*t):
+        return "content-range-text:invalid-parse", "parse_content_range(%r) = %r is not a valid content range" % (text, t)
+    back = ContentRange.parse(str(got))
+    if back is None or (back.start, back.stop, back.length) != t:
+        return "content-range-text:roundtrip", "%r parses to %r, printed %r, which reads back as %r" % (text, t, str(got), back and tuple(back))
+    return None
+
+
+def judge_cr_serialize(c):
+    value, _ = make_sarg(c["arg"])
+    out = impl_cr_serialize(value)
+    kind = c["arg"][0]
+    if kind in ("tuple", "list"):
+        items = c["arg"][1]
+        full = (list(items) + [None])[:3] if len(items) in (2, 3) else None
+        ok = full is not None and all(x is None or isinstance(x, int) for x in full) and (
+            cr_ctor_ok(*full))
+        if ok:
+            s_, e_, l_ = full
+            want = "bytes %s/%s" % ("*" if s_ is None else "%d-%d" % (s_, e_ - 1), "*" if l_ is None else l_)
+            if out != want:
+                return "content-range-text:serialize", "serialize_content_range(%r) = %r, expected %r" % (value, out, want)
+        elif not isinstance(out, Err):
+            return "content-range-text:serialize-accepts-invalid", "serialize_content_range(%r) = %r" % (value, out)
+    if kind == "str" and isinstance(out, str) and out != c["arg"][1].strip(" \t"):
+        return "content-range-text:serialize-text", "serialize_content_range(%r) = %r" % (value, out)
+    return None
+
+
+def cr_ctor_ok(s, e, l):
+    """what ContentRange.__init__ documents: both None (length None or >= 0) or 0 <= start < stop, start < length"""
+    if s is None or e is None:
+        return s is None and e is None and (l is None or l >= 0)
+    return 0 <= s < e and (l is None or s < l)
+
+
+CR_MALFORMED = [
+    "", " ", "\t", "\n", "\r\n", " \t\n", "\xa0", "\x85", "\x1c\x1d", "\x0b\x0c", "bytes", "bytes ", "bytes */", "bytes */*", "bytes */*x",
+    "bytes 0-4/10\n", "bytes 0-4/10\r\n", "bytes 0-4/10\r", "\nbytes 0-4/10", "\rbytes */5", " bytes 0-4/10", "\tbytes 0-4/10",
+    "bytes  0-4/10", "Bytes 0-4/10", "BYTES */5", "bytes 0-4/10 ", "bytes 0-4/10\t", "bytes 0-4 /10", "bytes 0 -4/10", "bytes 0- 4/10",
+    "bytes 0-4/ 10", "bytes 4-0/10", "bytes 0-0/0", "bytes 0-0/1", "bytes 0-9/10", "bytes 0-10/10", "bytes 5-5/10", "bytes 5-4/10",
+    "bytes -4/10", "bytes 0-/10", "bytes 0-4/", "bytes 0-4", "bytes *-4/10", "bytes 0-*/10", "bytes */-1", "bytes */0", "bytes 00-04/010",
+    "bytes 0-4/10garbage", "bytes 0-4/10/3", "bytes 0-4/1 0", "bytes 0-4/10, bytes 5-9/10", "bytes=0-4", "bytes=0-4/10", "items 0-4/10",
+    "bytes\t0-4/10", "bytes\n0-4/10", "bytes 0-4/*", "bytes 0-4/**", "bytes **/5", "bytes */5, bytes */6", "bytes 0\n-4/10", "bytes 0-4\n/10",
+    "bytes 0-4/\n10", "bytes \xb2-\xb3/\xb9", "bytes 0-4/1\xb2", "bytes +0-4/10", "bytes 0-+4/10", "bytes 0-4/+10", "bytes 0_0-4/10", "bytes 0-4/1_0",
+    "bytes 0x0-4/10", "bytes 0-4/1e1", "bytes 0.0-4/10", "xbytes 0-4/10", "bytes 0-4/10\x00", "\x00bytes 0-4/10", "bytes 0\x00-4/10", "bytes */*\n",
+    "bytes 12345678901234567890-12345678901234567899/12345678901234567900", "bytes 0-99999999999999999999999/*",
+    "bytes 18446744073709551615-18446744073709551616/18446744073709551617", "bytes 9223372036854775807-9223372036854775807/9223372036854775808",
+    "bytes 0-4/" + "9" * 4300, "bytes 0-4/" + "9" * 4301, "bytes 0-" + "0" * 4301 + "/5", "bytes " + "0" * 4300 + "-4/5",
+    "bytes " + "1" * 4301 + "-2/3", "bytes */" + "0" * 4301, "bytes */" + "0" * 4299 + "7",
+]
+
+
+def gen_cr_texts(ctx):
+    rng = ctx.sub_rng("corr-cr-text")
+    texts = list(CR_MALFORMED)
+    vals = [None, 0, 1, 4, 5, 9, 10]
+    for s_, e_, l_ in itertools.product(vals, repeat=3):
+        if s_ is None or e_ is None:
+            texts.append("bytes */%s" % ("*" if l_ is None else l_))
+        else:
+            texts.append("bytes %d-%d/%s" % (s_, e_, "*" if l_ is None else l_))
+    small = []
+    for n in range(0, 5):
+        for w in itertools.product("09-/*", repeat=n):
+            small.append("bytes " + "".join(w))
+    head, rest = small[:156], small[156:]
+    rng.shuffle(rest)
+    texts += head + rest[:ctx.scale(250, len(rest))]
+    pool = []
+    for _ in range(ctx.scale(250, 1500)):
+        L = rng.choice([rng.randrange(0, 12), rng.randrange(0, 10 ** rng.randrange(1, 25))])
+        a = rng.randrange(0, L + 3)
+        b = rng.randrange(0, L + 3)
+        t = "bytes %s/%s" % (rng.choice(["%d-%d" % (a, b), "%d-%d" % (min(a, b), max(a, b)), "*"]), rng.choice([str(L), str(L), "*"]))
+        if rng.random() < 0.35:          # one edit: insert / delete / replace a character
+            i = rng.randrange(0, len(t) + 1)
+            ch = rng.choice(" \t\r\n-/*0=bB,x\xa0")
+            t = rng.choice([t[:i] + ch + t[i:], t[:i] + t[i + 1:], t[:i] + ch + t[i + 1:]])
+        pool.append(t)
+    pool += ["".join(rng.choice("bytes */-0159 \n\r\t") for _ in range(rng.randrange(0, 14))) for _ in range(ctx.scale(100, 600))]
+    texts += pool
+    return list(dict.fromkeys(texts))
+
+
+def gen_cr_args(ctx):
+    rng = ctx.sub_rng("corr-cr-serialize")
+    args = [["none"]]
+    vals = [None, -1, 0, 1, 2, 3, 7]
+    for n in (0, 1, 4):
+        # a TUPLE of length 0 or >= 4 makes the error message's own `%r` formatting raise TypeError (reported as a
+        # side observation); the model's ASeq covers lists of any length and tuples of length 1-3
+        args.append(["list" if n != 1 else "tuple", [0] * n])
+        args.append(["list", [None] * n])
+    for s_, e_ in itertools.product(vals, repeat=2):
+        args.append([rng.choice(["tuple", "list"]), [s_, e_]])
+        for l_ in vals:
+            args.append([rng.choice(["tuple", "list"]), [s_, e_, l_]])
+            if impl_is_valid(s_, e_, l_, False):
+                args.append(["cr", [s_, e_, l_]])
+    for _ in range(60):
+        l_ = rng.choice([None, rng.randrange(0, 10 ** rng.randrange(1, 30))])
+        s_ = rng.randrange(0, 10 ** rng.randrange(1, 30))
+        e_ = s_ + rng.randrange(-2, 10 ** rng.randrange(1, 30))
+        args.append([rng.choice(["tuple", "list"]), [s_, e_, l_]])
+    for t in CR_MALFORMED[:80] + ["None", " None ", "\t bytes */5 \t", " \t ", "\x0bbytes */5\x0c", "bytes */5 \n", "\n bytes */5",
+                                  " \r", "\xa0bytes */5\xa0", "a b", " a\tb "]:
+        args.append(["str", t])
+    seen = set()
+    out = []
+    for a in args:
+        k = json.dumps(a)
+        if k not in seen:
+            seen.add(k)
+            out.append(a)
+    return out
+
+
+def oracle_cr_text(s_, e_, l_):
+    """Public API: Response.content_range set from a tuple, the header it writes, and reading it back."""
+    from webob import Response
+    from webob.byterange import ContentRange
+    ctor = cr_ctor_ok(s_, e_, l_)
+    try:
+        cr = ContentRange(s_, e_, l_)
+    except ValueError:
+        cr = None
+    if (cr is not None) != ctor:
+        return "content-range-text:ctor", "ContentRange(%r, %r, %r) %s" % (s_, e_, l_, "accepted" if cr is not None else "refused")
+    if cr is None:
+        return None
+    want = "bytes %s/%s" % ("*" if s_ is None else "%d-%d" % (s_, e_ - 1), "*" if l_ is None else l_)
+    r = Response()
+    r.content_range = (s_, e_, l_)
+    if r.headers.get("Content-Range") != want:
+        return "content-range-text:header", "content_range = %r writes %r, expected %r" % ((s_, e_, l_), r.headers.get("Content-Range"), want)
+    back = r.content_range
+    if cr_tuple_ok(s_, e_, l_):
+        if back is None or (back.start, back.stop, back.length) != (s_, e_, l_):
+            return "content-range-text:roundtrip", "Content-Range %r reads back as %r, expected %r" % (want, back and tuple(back), (s_, e_, l_))
+    elif back is not None:          # stop > length: not a valid response header, must not be read as one
+        return "content-range-text:invalid-parse", "Content-Range %r reads back as %r" % (want, tuple(back))
+    return None
+
+
+def oracle_cr_ctl(text):
+    """A text with CR / LF must never end up in (or silently remove) the Content-Range header."""
+    from webob import Response
+    r = Response()
+    r.content_range = (0, 5, 10)
+    try:
+        r.content_range = text
+    except ValueError:
+        return None if r.headers.get("Content-Range") == "bytes 0-4/10" else (
+            "content-range-text:refused-assignment-changes-header", "refused content_range = %r left %r" % (text, r.headers.get("Content-Range")))
+    return "content-range-text:crlf-accepted", "content_range = %r accepted; header now %r" % (text, r.headers.get("Content-Range"))
+
+
+def oracle_cr_206(L, text, chunked):
+    """The Content-Range of the real 206 / 416, read back with the real parser, names the slice that was served."""
+    from webob import Request, Response
+    from webob.descriptors import parse_content_range
+    data = bytes((11 * i + 5) % 256 for i in range(L))
+    resp = Response(conditional_response=True)
+    resp.app_iter = [data[i:i + 2] for i in range(0, L, 2)] if chunked else [data]
+    resp.content_length = L
+    req = Request.blank("/", headers={"Range": text})
+    res = req.get_response(resp)
+    hdr = res.headers.get("Content-Range")
+    if res.status_code == 206:
+        cr = parse_content_range(hdr)
+        if cr is None or not cr_tuple_ok(cr.start, cr.stop, cr.length) or cr.length != L:
+            return "content-range-text:206-unreadable", "Range %r on %d bytes: 206 with Content-Range %r read back as %r" % (
+                text, L, hdr, cr and tuple(cr))
+        if res.body != data[cr.start:cr.stop] or res.content_length != cr.stop - cr.start:
+            return "content-range-text:206-slice", "Range %r on %d bytes: Content-Range %r reads (%r, %r) but the payload is %r" % (
+                text, L, hdr, cr.start, cr.stop, res.body)
+    elif res.status_code == 416:
+        cr = parse_content_range(hdr)
+        if cr is None or (cr.start, cr.stop, cr.length) != (None, None, L):
+            return "content-range-text:416-unreadable", "Range %r on %d bytes: 416 with Content-Range %r read back as %r" % (
+                text, L, hdr, cr and tuple(cr))
+    elif hdr is not None:
+        return "content-range-text:stray-header", "Range %r on %d bytes: status %d carries Content-Range %r" % (text, L, res.status_code, hdr)
+    return None
+
+
+CR_CTL_TEXTS = ["bytes 0-4/10\n", "bytes 0-4/10\r\n", "\nbytes 0-4/10", "bytes 0-4\n/10", "\n", "\r", "\r\n", " \n ", "bytes */5\r",
+                "bytes 0-4/10\nX-Injected: 1", "\t\n"]
+
+
 # what the Gallina models mirror by hand (coq/Model/C06_*.v), what gen() dumps into coq/Gen, what only the oracle runs
 MODELLED = [
     # Model/C06_AppIterRange.v
@@ -1285,18 +1540,21 @@ MODELLED = [
     "webob.byterange:_rx_range", "webob.byterange:Range.parse", "webob.byterange:Range.range_for_length",
     "webob.byterange:Range.content_range", "webob.byterange:Range.__str__", "webob.byterange:ContentRange.__init__",
     "webob.byterange:ContentRange.__str__", "webob.byterange:_is_content_range_valid", "webob.descriptors:parse_range",
+    # Model/C06_ContentRangeText.v
+    "webob.byterange:_rx_content_range", "webob.byterange:ContentRange.parse", "webob.descriptors:parse_content_range",
+    "webob.descriptors:serialize_content_range",
     # Model/C06_CondResp.v
     "webob.response:Response.conditional_response_app", "webob.response:Response._safe_methods",
     "webob.response:Response.app_iter_range", "webob.response:Response.etag_strong", "webob.response:filter_headers",
     "webob.response:EmptyResponse", "webob.etag:IfRange.__contains__", "webob.etag:IfRangeDate.__contains__",
     "webob.etag:_AnyETag.__contains__", "webob.etag:_NoETag.__bool__", "webob.etag:ETagMatcher.__contains__",
 ]
-REGENERATED = ["webob.byterange:_is_content_range_valid", "webob.byterange:Range.range_for_length"]
+REGENERATED = ["webob.byterange:_is_content_range_valid", "webob.byterange:Range.range_for_length",
+               "webob.byterange:_rx_content_range"]
 ORACLE_ONLY = [
     # fact extraction feeding the decision model, and the glue around it
     "webob.etag:etag_property", "webob.etag:ETagMatcher.parse", "webob.etag:IfRange.parse", "webob.descriptors:_rx_etag",
-    "webob.descriptors:parse_etag_response", "webob.descriptors:parse_int", "webob.descriptors:parse_content_range",
-    "webob.byterange:ContentRange.parse", "webob.byterange:_rx_content_range", "webob.datetime_utils:parse_date",
+    "webob.descriptors:parse_etag_response", "webob.descriptors:parse_int", "webob.datetime_utils:parse_date",
     "webob.datetime_utils:serialize_date", "webob.descriptors:header_getter", "webob.descriptors:converter",
     "webob.response:Response._abs_headerlist", "webob.response:Response.__call__", "webob.response:iter_close",
     "webob.request:BaseRequest.call_application", "webob.request:BaseRequest.send", "webob.static:FileApp",
@@ -1392,6 +1650,18 @@ def run(ctx):
                     {"kind": "arith", "start": s, "end": e, "length": l}))
     corr_simple(ctx, "content-range", "corr_content_range", "((Z * option Z) * option Z)", lit, judge_arith)
 
+    texts = gen_cr_texts(ctx)
+    lit = [(cstr(t), impl_cr_text(t), {"kind": "cr-text", "text": t}) for t in texts]
+    ctx.extra["cr_text_cases"] = len(lit)
+    corr_simple(ctx, "cr-text", "corr_cr_text", "str", lit, judge_cr_text)
+
+    lit = []
+    for a in gen_cr_args(ctx):
+        value, term = make_sarg(a)
+        lit.append((term, impl_cr_serialize(value), {"kind": "cr-serialize", "arg": a}))
+    ctx.extra["cr_serialize_cases"] = len(lit)
+    corr_simple(ctx, "cr-serialize", "corr_cr_serialize", "sarg", lit, judge_cr_serialize)
+
     rng = ctx.sub_rng("corr-cond")
     lit = []
     n_cond = ctx.scale(700, 6000)
@@ -1432,6 +1702,37 @@ def run(ctx):
     sweep("validators", gen_validators())
     sweep("if-range", gen_ifrange())
     sweep("corner", gen_corner())
+
+    # (5b) Content-Range text layer through the public API
+    n = nt = 0
+    vals = [None, -1, 0, 1, 2, 3, 4, 5, 6, 10 ** 12, 10 ** 30]
+    for s_, e_, l_ in itertools.product(vals, repeat=3):
+        n += 1
+        nt += 1 if cr_ctor_ok(s_, e_, l_) else 0
+        r = oracle_cr_text(s_, e_, l_)
+        if r:
+            ctx.fail(r[0], r[1], {"kind": "cr-tuple", "tuple": [s_, e_, l_]}, True, "cr-text")
+    for t in CR_CTL_TEXTS:
+        n += 1
+        nt += 1
+        r = oracle_cr_ctl(t)
+        if r:
+            ctx.fail(r[0], r[1], {"kind": "cr-ctl", "text": t}, True, "cr-text")
+    for L in range(0, 7):
+        for t in range_texts(L) + LENIENT:
+            for chunked in (False, True):
+                n += 1
+                nt += 1
+                r = oracle_cr_206(L, t, chunked)
+                if r:
+                    ctx.fail(r[0], r[1], {"kind": "cr-206", "L": L, "range": t, "chunked": chunked}, True, "cr-text")
+    for t in gen_cr_texts(ctx):
+        n += 1
+        r = judge_cr_text({"text": t})
+        nt += 1 if impl_cr_text(t)[0] is not None else 0
+        if r:
+            ctx.fail(r[0], r[1], {"kind": "cr-text", "text": t}, True, "cr-text")
+    ctx.oracle_count("cr-text", n, nt)
 
     # (6) random larger cases
     rng = ctx.sub_rng("oracle-random")
@@ -1506,7 +1807,14 @@ def run(ctx):
         "validator combinations, random larger cases, FileApp on real files; histories = one long-lived Response "
         "(list / re-iterable body) and one FileApp instance answering 3-8 different requests in sequence (all ordered "
         "pairs a,b,a over a 16-request universe + random, some replayed in reverse order), each answer compared with a "
-        "brand-new identical object's and the Response's status/headerlist/body compared with before")
+        "brand-new identical object's and the Response's status/headerlist/body compared with before"
+        ".  Content-Range text layer: correspondence of [groups of _rx_content_range.match, ContentRange.parse, "
+        "parse_content_range] on every 'bytes '+w, |w|<=3 over {0,9,-,/,*} (+ a sample of |w|=4), a 7^3 product of "
+        "printed tuples, ~90 malformed texts (CR/LF/TAB/NBSP, signs, underscores, superscript digits, trailing text, "
+        "4300/4301-digit numbers) and single-edit mutations of valid texts; of serialize_content_range on tuples/lists of "
+        "length 0-4 over {None,-1,0,1,2,3,7}, ContentRange objects, texts and None; oracle cr-text: 11^3 tuples through "
+        "Response.content_range (set, header text, read back), CR/LF texts refused, and the Content-Range of real 206/416 "
+        "answers read back with parse_content_range and compared with the payload")
     ctx.extra["exhaustive"] = False
     ctx.assume += [
         "an If-Range date matches when Last-Modified is not later than it (the same comparison the statement uses for "
@@ -1515,6 +1823,9 @@ def run(ctx):
         "Range texts that are a single range only after removing blanks around '=' and '-' (a leniency pinned by webob's own "
         "tests) may be honoured or ignored; 'bytes=-0' may be answered 416 or with the full response",
         "`If-Range: *` and an existing but unparsable Content-Range are outside the statement's quantifier and not generated",
+        "Content-Range text model: code points < 256 (so `\\d` is [0-9]; CPython's own `re` is asked on every run); int(text) "
+        "refuses more than sys.get_int_max_str_digits() = 4300 digits (the theorems' `fits` hypothesis); tuple/list items are "
+        "ints or None",
     ]
     ctx.trusted += [
         "facts handed to the decision-tree model (parsed ETag lists, dates as POSIX seconds, Content-Length) are read through "
@@ -1541,6 +1852,16 @@ def replay(ctx, path):
         r = judge_arith(case)
     elif kind == "is-valid":
         r = None
+    elif kind == "cr-text":
+        r = judge_cr_text(case)
+    elif kind == "cr-serialize":
+        r = judge_cr_serialize(case)
+    elif kind == "cr-tuple":
+        r = oracle_cr_text(*case["tuple"])
+    elif kind == "cr-ctl":
+        r = oracle_cr_ctl(case["text"])
+    elif kind == "cr-206":
+        r = oracle_cr_206(case["L"], case["range"], case["chunked"])
     elif kind == "fileapp":
         with tempfile.TemporaryDirectory(prefix="c06-") as tmp:
             size = case["size"]
@@ -1696,7 +2017,72 @@ def translate_byterange(path):
     return "\n".join(out) + "\n"
 
 
+# =========================================================================== _rx_content_range -> Gallina rx
+def _rx_plain(items, digit_ranges):
+    """re._parser tree -> plain (op, arg) lists understood by harness/rxgen.Tr; `\\d` is replaced by the ranges CPython's
+    own `re` gives it on code points < 256 (the domain of the model).  Fail-closed on anything else."""
+    import re._constants as sc
+    out = []
+    for op, a in items:
+        if op == sc.IN:
+            its = []
+            for o2, a2 in a:
+                if o2 == sc.CATEGORY and a2 == sc.CATEGORY_DIGIT:
+                    its += [(sc.RANGE, r) for r in digit_ranges]
+                elif o2 in (sc.LITERAL, sc.RANGE, sc.NEGATE):
+                    its.append((o2, a2))
+                else:
+                    raise Untranslatable("class item %s %s" % (o2, a2))
+            out.append((op, its))
+        elif op in (sc.MAX_REPEAT, sc.MIN_REPEAT):
+            out.append((op, (a[0], a[1], _rx_plain(a[2], digit_ranges))))
+        elif op == sc.SUBPATTERN:
+            out.append((op, (a[0], a[1], a[2], _rx_plain(a[3], digit_ranges))))
+        elif op == sc.BRANCH:
+            out.append((op, (a[0], [_rx_plain(x, digit_ranges) for x in a[1]])))
+        elif op == sc.LITERAL:
+            out.append((op, a))
+        else:
+            raise Untranslatable("construct %s (anchors, look-around, back-references are outside the modelled shape)" % op)
+    return out
+
+
+def translate_content_range_rx():
+    """The live webob.byterange._rx_content_range as a Gallina rx (language of the prefixes `.match` accepts)."""
+    import re._parser as sp
+    from harness import rxgen
+    from webob import byterange
+    pat = byterange._rx_content_range
+    if pat.flags & ~re.UNICODE:
+        raise Untranslatable("flags %r on _rx_content_range" % pat.flags)
+    d = re.compile(r"\d")
+    digit_ranges = rxgen.rngs([c for c in range(256) if d.fullmatch(chr(c))])
+    tree = _rx_plain(list(sp.parse(pat.pattern, pat.flags)), digit_ranges)
+    try:
+        term = rxgen.Tr(pat.flags).seq(tree)
+    except rxgen.Untranslatable as e:
+        raise Untranslatable(str(e))
+    return pat.pattern, pat.groups, term
+
+
+def gen_crx(ctx):
+    target = os.path.join(fw.COQ, "Gen", "C06_crx.v")
+    head = ("From Coq Require Import NArith List Bool.\nRequire Import Webob.Lib.Val Webob.Lib.Rx.\nImport ListNotations.\n"
+            "Local Open Scope N_scope.\n")
+    try:
+        pattern, groups, term = translate_content_range_rx()
+        txt = ("(* REGENERATED by harness/props/c06.py:gen_crx from the live webob.byterange._rx_content_range — do not edit.\n"
+               "   pattern: %s *)\n%sDefinition cr_rx : rx := %s.\nDefinition cr_rx_groups : N := %d.\n"
+               % (pattern.replace("*)", "* )").replace("(*", "( *"), head, term, groups))
+    except Exception as e:  # noqa  fail-closed
+        ctx.broken.append("translator: _rx_content_range stepped outside the translated regex subset: %s" % e)
+        txt = "(* translator failed: %s *)\n%sDefinition cr_rx : rx := Emp.\nDefinition cr_rx_groups : N := 0.\n" % (
+            str(e).replace("*)", "* )").replace("(*", "( *"), head)
+    fw.write_if_changed(target, txt)
+
+
 def gen(ctx):
+    gen_crx(ctx)                  # coq/Gen/C06_crx.v from the live pattern object
     path = os.path.join(fw.REPO, "src", "webob", "byterange.py")
     target = os.path.join(fw.COQ, "Gen", "C06_byterange.v")
     try:
